@@ -502,6 +502,8 @@ func c12Wrappings(src string) []string {
 	out = append(out, join([]string{head, "\tporyswitch(PV) {", "\t\tSEL {"}, indent(body, "\t\t"), []string{"\t\t}", "\t\t_ { other }", "\t}", tail}))
 	// 1: whole body in '_' after an unselected case that holds commands, a text and a label
 	out = append(out, join([]string{head, "\tporyswitch(PV) {", "\t\tNOPE {", "\t\t\tother(\"unselected\")", "\t\t\tUnselectedLabel:", "\t\t\tif (flag(UNSEL)) {", "\t\t\t\tother2", "\t\t\t}", "\t\t}", "\t\t_ {"}, indent(body, "\t\t"), []string{"\t\t}", "\t}", tail}))
+	// 1b: whole body in a '_' case that stands FIRST, before two unselected cases with control flow of their own
+	out = append(out, join([]string{head, "\tporyswitch(PV) {", "\t\t_ {"}, indent(body, "\t\t"), []string{"\t\t}", "\t\tNOPE { other }", "\t\tNOPE2 {", "\t\t\twhile (flag(UNSEL2)) {", "\t\t\t\tother3", "\t\t\t}", "\t\t}", "\t}", tail}))
 	// 2: every block body wrapped
 	var wrapped []string
 	var stack []string
